@@ -20,6 +20,7 @@ ASSUMPTIONS = [
     "pure differential oracle: no reference model, the two mixins are compared with each other",
     "only tree-node arguments (NodeMixin type-checks its arguments, LightNodeMixin does not; the statement restricts itself to tree-node arguments)",
     "both classes share the same label-based __repr__ so that rendered text is comparable",
+    "hooks either log, raise, or (plan 'evict') detach the first other child of the hook's parent argument - a hook that edits the tree is a nested structural call and must behave the same in both mixins",
 ]
 
 
@@ -61,6 +62,7 @@ def observe(universe, labels):
         o["descendants"] = LL(node.descendants)
         o["leaves"] = LL(node.leaves)
         o["iter_path_reverse"] = LL(node.iter_path_reverse())
+        o["commonancestors-1"] = safe(lambda: LL(util.commonancestors(node)))
         o["leftsibling"] = L(util.leftsibling(node))
         o["rightsibling"] = L(util.rightsibling(node))
         stop = lambda n: labels.label(n) % 3 == 2  # noqa: E731
@@ -171,12 +173,12 @@ def plan(tier, seed):
 
 def run_task(task, acc):
     if task["engine"] == "enum":
-        cases = mut.enum_fault_cases("HNM", task["n"], task["index"], task["count"], fault_hooks=mut.HOOKS if task.get("pair", "plain") == "plain" else (), pairs=False, invalid=False, maxlen=task["maxlen"], routes=task["routes"])
+        cases = mut.enum_fault_cases("HNM", task["n"], task["index"], task["count"], fault_hooks=mut.HOOKS if task.get("pair", "plain") == "plain" else (), pairs=False, invalid=False, maxlen=task["maxlen"], routes=task["routes"], evict=True)
         acc.run_enum(check_case, (dict(c, pair=task.get("pair", "plain")) for c in cases))
     else:
         from hypothesis import strategies as st
 
-        strat = st.tuples(mut.history_strategy(max_nodes=7, max_steps=25, faults="all", invalid=False, class_specs=["HNM"]), st.sampled_from(["plain", "plain", "eq"])).map(lambda t: dict(t[0], pair=t[1]))
+        strat = st.tuples(mut.history_strategy(max_nodes=7, max_steps=25, faults="all+evict", invalid=False, class_specs=["HNM"]), st.sampled_from(["plain", "plain", "eq"])).map(lambda t: dict(t[0], pair=t[1]))
         acc.run_hypothesis(check_case, strat, task["examples"], task["seed"])
 
 
